@@ -13,37 +13,42 @@ LENS_QUICK = [(2, 3, 2, 2, 2, 3), (1, 2, 3, 2, 3, 2)]
 LENS_THOROUGH = LENS_QUICK + [(2, 2, 2, 2, 2, 2), (3, 1, 2, 1, 1, 3), (2, 3, 1, 3, 3, 1), (3, 2, 3, 1, 2, 2)]
 
 
+MODE = {"cases": ("Cases", "Emit", ["WellDefinedInv", "C14_ContribPartition"], "C"),
+        "equiv": ("Equiv", "EmitRel", ["C08_Equivariance"], "R")}
+
+
 def _run_one(args):
-    fam, names, lens, maxdims, maxleaves, tag, timeout = args
+    fam, names, lens, maxdims, maxleaves, tag, timeout, mode = args
+    base, emit, invs, _ = MODE[mode]
     d = common.workdir("corpus")
-    mod = "MC_Cases_%s" % tag
+    mod = "MC_%s_%s" % (base, tag)
     with open(os.path.join(d, mod + ".tla"), "w") as f:
-        f.write("---- MODULE %s ----\nEXTENDS Cases\nMCLens == {%s}\nMCOrder == %s\n====\n" % (
+        f.write(("---- MODULE %s ----\nEXTENDS " + base + "\nMCLens == {%s}\nMCOrder == %s\n====\n") % (
             mod, ", ".join(common.tla_expr(list(l)) for l in lens), common.tla_expr(NAME_ORDER)))
     cfg = os.path.join(d, mod + ".cfg")
     with open(cfg, "w") as f:
         f.write("\n".join(["SPECIFICATION Spec", "CONSTANTS", '  Family = "%s"' % fam, "  Names = %s" % common.tla_value(set(names)),
                            "  Lens <- MCLens", "  NameOrder <- MCOrder", "  MaxDims = %d" % maxdims, "  MaxLeaves = %d" % maxleaves, "  Shard = 0", "  NShards = 1",
-                           "CONSTRAINT Emit", "INVARIANT WellDefinedInv", "CHECK_DEADLOCK FALSE"]) + "\n")
+                           "CONSTRAINT " + emit] + ["INVARIANT " + i for i in invs] + ["CHECK_DEADLOCK FALSE"]) + "\n")
     res = common.run_tlc(os.path.join(d, mod + ".tla"), cfg, workers=1, timeout=timeout)
     return fam, tag, res
 
 
 def _spec_hash():
     h = hashlib.sha1()
-    for f in ("Loop.tla", "Cases.tla"):
+    for f in ("Loop.tla", "Cases.tla", "Equiv.tla"):
         with open(os.path.join(common.SPEC, f), "rb") as fh:
             h.update(fh.read())
     return h.hexdigest()[:16]
 
 
-def generate(rep, specs, timeout=1500):
+def generate(rep, specs, timeout=1500, mode="cases"):
     """specs: list of (family, names, lens(list of tuples), maxdims, maxleaves).  One JVM per (spec, length assignment).
     The exported corpus only depends on Loop.tla, Cases.tla and the parameters, never on /repo: it is cached under
     .work/cache keyed by their hash, and the TLC statistics of the generating run are reported with cached=true."""
     cdir = os.path.join(common.VERIF, ".work", "cache")
     os.makedirs(cdir, exist_ok=True)
-    key = hashlib.sha1((_spec_hash() + json.dumps(specs, sort_keys=True)).encode()).hexdigest()[:20]
+    key = hashlib.sha1((_spec_hash() + mode + json.dumps(specs, sort_keys=True)).encode()).hexdigest()[:20]
     cpath = os.path.join(cdir, "corpus_%s.json" % key)
     if os.path.exists(cpath) and not os.environ.get("VERIF_NO_CACHE"):
         with open(cpath) as f:
@@ -56,7 +61,7 @@ def generate(rep, specs, timeout=1500):
         return d["cases"]
     n_before = len(rep.tlc_runs)
     nviol = len(rep.violations)
-    cases = _generate(rep, specs, timeout)
+    cases = _generate(rep, specs, timeout, mode)
     if len(rep.violations) == nviol and not any(r.get("timeout") for r in rep.tlc_runs[n_before:]):
         tmp = cpath + ".%d.tmp" % os.getpid()
         with open(tmp, "w") as f:
@@ -65,11 +70,11 @@ def generate(rep, specs, timeout=1500):
     return cases
 
 
-def _generate(rep, specs, timeout):
+def _generate(rep, specs, timeout, mode):
     jobs = []
     for si, (fam, names, lens, maxdims, maxleaves) in enumerate(specs):
         for li, l in enumerate(lens):
-            jobs.append((fam, names, [l], maxdims, maxleaves, "%s_%d_%d" % (fam, si, li), timeout))
+            jobs.append((fam, names, [l], maxdims, maxleaves, "%s_%d_%d" % (fam, si, li), timeout, mode))
     cases = []
     with cf.ThreadPoolExecutor(min(16, len(jobs))) as ex:
         for fam, tag, res in ex.map(_run_one, jobs):
@@ -81,7 +86,7 @@ def _generate(rep, specs, timeout):
             if res.violated:
                 rep.violation({"kind": "model", "invariant": res.violated, "family": fam}, {"tag": tag},
                               "TLC: %s violated on the denotation of family %s\n%s" % (res.violated, fam, res.counterexample()[:3000]))
-            cs = res.printed("C")
+            cs = res.printed(MODE[mode][3])
             cases.extend(cs)
     return cases
 
